@@ -1,8 +1,11 @@
 #!/bin/bash
-# usage: tools/try_seed.sh <patch.diff> <Cnn> [tier]   — apply a seeded change to /repo, run the check, always revert
+# usage: tools/try_seed.sh <patch.diff> <Cnn> [tier]   — apply a seeded change to /repo, run the check, always revert.
+# The evidence file of the property is saved and restored (evidence must come from the unchanged tree).
 patch="$1"; pid="$2"; tier="${3:-quick}"
 if ! git -C /repo diff --quiet; then echo "/repo dirty"; exit 3; fi
 git -C /repo apply "$patch" || { echo "APPLY-FAILED $patch"; exit 3; }
-trap 'git -C /repo checkout -- . ' EXIT
-cd /verif && ./check "$pid" "$tier" 2>&1 | grep -E "VIOLATION|INCONCLUSIVE|BUILD-FAILED|^C[0-9]+ (quick|thorough):|violated" | head -8
-echo "exit=${PIPESTATUS[0]}"
+cp /verif/evidence/$pid.json /tmp/evidence.$pid.$$ 2>/dev/null
+trap 'git -C /repo checkout -- . ; [ -f /tmp/evidence.'$pid.$$' ] && mv /tmp/evidence.'$pid.$$' /verif/evidence/'$pid'.json; rm -f /verif/replays/'$pid'/quick-* /verif/replays/'$pid'/thorough-*' EXIT
+cd /verif && ./check "$pid" "$tier" > /tmp/try_seed.$pid.log 2>&1; rc=$?
+grep -E "VIOLATION|INCONCLUSIVE|BUILD-FAILED|^C[0-9]+ (quick|thorough):|violated" /tmp/try_seed.$pid.log | head -${TRY_LINES:-6}
+echo "exit=$rc"
